@@ -1,5 +1,61 @@
+import SamVerif.Model.Scope
+import SamVerif.Model.ScopeSig
+import Driver.ScopeIO
 import Driver.Util
-/-! Line-protocol driver for property C13 (model side). Not implemented yet. -/
+/-! Line-protocol driver for property C13 (model side).
+  `ssa <module dump>` -> canonical analysis result of `SamVerif.Scope.analyze`
+  `sig <toplevel dump>` -> canonical result of `SamVerif.Sig.buildModule` -/
+namespace Driver.C13
+open SamVerif.Scope SamVerif Driver Driver.ScopeIO
+
+abbrev SigTop := Sig.Top String (Nat × Nat)
+
+/-- reader for the `sig` dump (flat token stream, see harness/src/bin/c13.rs) -/
+partial def parseTops (toks : List String) (acc : List SigTop) : List SigTop :=
+  match toks with
+  | "top" :: name :: _loc :: cls :: priv :: ntp :: nsup :: rest =>
+    let rec go (t : SigTop) : List String → SigTop × List String
+      | "m" :: n :: l :: meth :: nargs :: r =>
+        go { t with members := t.members ++ [{ name := n, isMethod := meth == "1", sig := (l.toNat!, nargs.toNat!) }] } r
+      | "tdnone" :: r => go t r
+      | "tdstruct" :: l :: nf :: r => go { t with tyDef := .struct [] (l.toNat!, nf.toNat!) } r
+      | "f" :: n :: r =>
+        go { t with tyDef := match t.tyDef with | .struct fs c => .struct (fs ++ [n]) c | o => o } r
+      | "tdenum" :: l :: r => go { t with tyDef := .enum [] (l.toNat!) } r
+      | "v" :: n :: k :: r =>
+        go { t with tyDef := match t.tyDef with | .enum vs l => .enum (vs ++ [(n, k.toNat!)]) l | o => o } r
+      | "end" :: r => (t, r)
+      | r => (t, r)
+    let (t, r) := go { name := name, isClass := cls == "1", priv := priv == "1", ntparams := ntp.toNat!,
+                       nsupers := nsup.toNat!, members := [], tyDef := .none } rest
+    parseTops r (acc ++ [t])
+  | _ => acc
+
+def showMembers (m : List (String × (Nat × Nat))) : String :=
+  "+".intercalate (sortS (m.map fun e => s!"{e.1}@{e.2.1}/{e.2.2}"))
+
+def showIface (e : String × Sig.Iface String (Nat × Nat)) : String :=
+  let i := e.2
+  let td := match i.tyDef with
+    | .none => "none"
+    | .struct fs => "struct:" ++ "+".intercalate fs
+    | .enum vs => "enum:" ++ "+".intercalate (vs.map fun (v : String × Nat) => s!"{v.1}/{v.2}")
+  s!"{e.1}\{p{if i.priv then 1 else 0} t{i.ntparams} s{i.nsupers} {td} F[{showMembers i.functions}] M[{showMembers i.methods}]}"
+
+def step (_ : Unit) (line : String) : Unit × String :=
+  match words line with
+  | "ssa" :: toks =>
+    match parseModule toks with
+    | some m => ((), render (analyze "this" m))
+    | none => ((), "bad-dump")
+  | "sig" :: toks =>
+    let tops := parseTops toks []
+    let res := Sig.buildModule "init" (fun l k => (l, k)) tops
+    ((), " ".intercalate (sortS (res.map showIface)))
+  | _ => ((), "bad-op")
+
+end Driver.C13
+
 def main (_args : List String) : IO UInt32 := do
-  IO.eprintln "drv-c13: not implemented yet"
-  return 2
+  Driver.runLoop () Driver.C13.step
+  return 0
